@@ -30,7 +30,18 @@ fn create_parents(p: &str) -> io::Result<()> {
 pub fn put(p: &str, data: &[u8]) -> String {
     unit((|| {
         create_parents(p)?;
-        fs::write(p, data)
+        // A rewrite that keeps the length also keeps the time stamps: silent corruption (bit rot, a restore with
+        // `cp -p` / rsync -t) does not announce itself through the modification time, and nothing in the cache may
+        // conclude "unchanged" from length and time.
+        let before = fs::metadata(p).ok().filter(|m| m.is_file() && m.len() == data.len() as u64);
+        fs::write(p, data)?;
+        if let Some(m) = before {
+            if let (Ok(mt), Ok(at)) = (m.modified(), m.accessed()) {
+                let f = fs::OpenOptions::new().write(true).open(p)?;
+                f.set_times(fs::FileTimes::new().set_modified(mt).set_accessed(at))?;
+            }
+        }
+        Ok(())
     })())
 }
 
